@@ -19,6 +19,28 @@ var (
 
 func properties() []Property {
 	return []Property{
+		{ID: "C01", Assumptions: []string{aSummaries, aModels, aE1, aE2, "receiver strings: both spellings of the orbiter address, a mixed-case spelling, other accounts, the blocked dust collector, empty, malformed, and an arbitrary 48-byte string; an arbitrary string other than a spelling of a known account is treated as undecodable", "'all prior histories' = arbitrary prior balances of the orbiter account, arbitrary escrow balance, arbitrary pause / parameter configuration (one inductive step)"},
+			Harnesses: []HarnessSpec{
+				{Name: "H_C01_receivers", Profile: "bit", Quick: b("rcvKinds", 8, "denomKinds", 4, "memoKinds", 2, "amountKinds", 3, "intKinds", 1, "fees", 0, "priors", 1, "pauses", 0, "ptMax", 0), Covers: []string{"error-ack", "success-ack", "success-ack-to-orbiter", "success-ack-to-someone-else"}},
+				{Name: "H_C01_payloads", Profile: "bit", Quick: b("rcvKinds", 2, "denomKinds", 1, "memoKinds", 6, "amountKinds", 1, "intKinds", 5, "fees", 1, "priors", 1, "pauses", 0, "ptMax", 0), Thorough: b("rcvKinds", 2, "denomKinds", 1, "memoKinds", 6, "amountKinds", 1, "intKinds", 5, "fees", 2, "priors", 1, "pauses", 1, "ptMax", 1), Covers: []string{"error-ack", "success-ack", "success-ack-to-orbiter"}},
+			}},
+		{ID: "C02", Assumptions: []string{aSummaries, aModels, aE1, aE5, "ledger = ten tracked accounts (orbiter, dust collector, users, fee recipients, escrow, CCTP / warp / transfer module accounts) x four denoms; 'interleavings with other transfers' are sequential histories, covered by starting from an arbitrary ledger"},
+			Harnesses: []HarnessSpec{
+				{Name: "H_C02_conservation", Profile: "bit", Quick: b("rcvKinds", 2, "denomKinds", 1, "memoKinds", 1, "amountKinds", 1, "intKinds", 2, "fees", 2, "priors", 1, "pauses", 0, "ptMax", 0), Thorough: b("rcvKinds", 2, "denomKinds", 1, "memoKinds", 1, "amountKinds", 1, "intKinds", 4, "fees", 3, "priors", 1, "pauses", 0, "ptMax", 0), Covers: []string{"successful-orbiter-transfer", "not-a-successful-orbiter-transfer"}},
+			}},
+		{ID: "C03", Assumptions: []string{aSummaries, aModels, aE1, "every fallible environment call (each bank send, the sweep, the ICS-20 application, the token query, each bridge request, each event emission) draws an independent failure bit, so all subsets of failures are covered; naturally occurring failures are the same bits of the respective model", "statistics failures are the documented exception (collections writes do not fail in the model)"},
+			Harnesses: []HarnessSpec{
+				{Name: "H_C03_faults", Profile: "bit", Quick: b("rcvKinds", 1, "denomKinds", 1, "memoKinds", 1, "amountKinds", 1, "intKinds", 2, "fees", 1, "priors", 1, "pauses", 0, "ptMax", 0), Thorough: b("rcvKinds", 2, "denomKinds", 1, "memoKinds", 1, "amountKinds", 1, "intKinds", 2, "fees", 2, "priors", 1, "pauses", 1, "ptMax", 0), Covers: []string{"some-step-failed", "error-ack", "success-ack", "success-ack-to-orbiter"}},
+			}},
+		{ID: "C07", Assumptions: []string{aSummaries, aModels, aE2, "events/state of the wrapped application itself are identical because it is the same single call with the same arguments on the same context (the application's internals are a model)", "acknowledgement / timeout / send callbacks: the middleware type embeds the wrapped interfaces and declares no override, shown by the method-set check of H_C07_callbacks"},
+			Harnesses: []HarnessSpec{
+				{Name: "H_C07_packets", Profile: "bit", Quick: b("rcvKinds", 8, "denomKinds", 4, "memoKinds", 2, "amountKinds", 3, "intKinds", 1, "fees", 0, "priors", 1, "pauses", 0, "ptMax", 0, "garbage", 1), Covers: []string{"not-for-orbiter"}},
+				{Name: "H_C07_payloads", Profile: "bit", Quick: b("rcvKinds", 4, "denomKinds", 1, "memoKinds", 6, "amountKinds", 1, "intKinds", 2, "fees", 1, "priors", 1, "pauses", 1, "ptMax", 1, "garbage", 0), Covers: []string{"not-for-orbiter"}},
+			}},
+		{ID: "C11", Assumptions: []string{aSummaries, aModels, aE1, "paired executions: the same drawn packet on two freshly wired modules whose states differ only in the coins already on the orbiter account (arbitrary amounts in the transferred denom and one other denom vs. none)", "bank send restrictions of other modules on the sweep are outside the claim"},
+			Harnesses: []HarnessSpec{
+				{Name: "H_C11_priors", Profile: "bit", Quick: b("rcvKinds", 2, "denomKinds", 1, "memoKinds", 1, "amountKinds", 1, "intKinds", 2, "fees", 1, "priors", 1, "pauses", 0, "ptMax", 0), Thorough: b("rcvKinds", 2, "denomKinds", 2, "memoKinds", 2, "amountKinds", 1, "intKinds", 4, "fees", 2, "priors", 1, "pauses", 1, "ptMax", 0), Covers: []string{"both-succeed", "both-refused"}},
+			}},
 		{ID: "C04", Assumptions: []string{aSummaries, aModels, "math.NewIntFromString on a concrete string is computed with math/big (SetString base 0, 256-bit limit) exactly as cosmossdk.io/math does; fixed fee amounts are the decimal rendering of an arbitrary symbolic Int or one of a few non-numbers", "fee recipients are concrete strings (two valid accounts, possibly repeated, and malformed ones): bech32 decoding itself is the SDK's"},
 			Harnesses: []HarnessSpec{
 				{Name: "H_C04_fee", Profile: "bit", Quick: b("entries", 2, "rcpKinds", 3, "feeKinds", 4), Thorough: b("entries", 6, "rcpKinds", 5, "feeKinds", 4), Covers: []string{"refused", "accepted"}},
